@@ -48,7 +48,12 @@ func (e *Exec) execSimple(st *State, fr *Frame, instr ssa.Instruction) {
 		}
 		elem := in.Type().(*types.Pointer).Elem()
 		obj := &Object{ID: e.nobj, Name: name, Typ: elem}
-		st.Objs[obj] = e.zeroValue(elem)
+		zv := e.zeroValue(elem)
+		if va, ok := zv.(VArr); ok {
+			e.freshRegs[va.Reg] = true
+			e.allRegs[va.Reg.Name] = va.Reg
+		}
+		st.Objs[obj] = zv
 		fr.Vals[in] = VPtr{Nil: False, Loc: &Loc{Obj: obj}, Elem: elem}
 	case *ssa.BinOp:
 		fr.Vals[in] = e.binop(st, in, in.Op, e.val(st, fr, in.X), e.val(st, fr, in.Y), in.X.Type())
